@@ -45,7 +45,7 @@ RULE = ("one case = one minimize_oc run on f = sum c_i/x_i: 1-4 variable signals
 PROBES = ["unreachable_volume", "variable_on_bound", "move_limit_active", "plateau_root_set", "multiplier_outside_bracket",
           "per_variable_bounds", "per_variable_move", "float_signal", "arr1_signal", "vector_signal", "multi_signal",
           "maxvol_none", "maxvol_above_sum_xmax", "maxvol_below_sum_xmin", "start_on_bound", "early_stop_by_tolerance",
-          "convergence_judged", "final_design_not_evaluated", "per_signal_network", "multiplier_far_below_bracket_resolution"]
+          "convergence_judged", "final_design_not_evaluated", "per_signal_network", "multiplier_far_below_bracket_resolution", "signals_share_initial_array", "variable_is_index_array_slice"]
 FAULT_KINDS = []
 COMPONENTS = {"real": ["pymoto.minimize_oc", "pymoto.Network / Module backpropagation", "pymoto.utils._concatenate_to_array"],
               "stub": ["environment network f = sum c_i/x_i with recorder module (harness code by design)"]}
@@ -137,6 +137,8 @@ def gen(rng, idx, tier):
         l1l2tol=float(rng.choice([1e-4, 1e-4, 1e-6, 1e-9])),
         tolx=0.0 if tol0 else 1e-4, tolf=0.0 if tol0 else 1e-4,
         maxit=2 * steps + 8, net=str(rng.choice(["single", "per_signal"])), ops=[])
+    case["share"] = bool(rng.random() < 0.3)
+    case["slicevar"] = bool(rng.random() < 0.2)
     if rng.random() < 0.15:
         # objective of another magnitude with the multiplier bracket / tolerance the user scales along with it: the multiplier is
         # ~1e-14 .. 1e-6 (or 1e8) and has to be resolved far below the resolution of floating point numbers near l2init.
@@ -257,6 +259,20 @@ def run(case):
         M[k] = max(M.get(k, 0.0), float(v))
 
     sizes, n, c, lo, hi, mv, x0, maxvol = build(case)
+    # two equally sized vector signals may be initialised from the *same* array object (x0 = np.full(n, v); Signal('a', x0);
+    # Signal('b', x0)): legal -- Signal does not copy and the optimiser has no business writing into the caller's arrays
+    shared = {}
+    if case.get("share"):
+        cum0 = np.concatenate([[0], np.cumsum(sizes)])
+        vec = [i for i, s_ in enumerate(case["sigs"]) if s_["kind"] == "vec"]
+        for a_ in vec:
+            for b_ in vec:
+                if a_ < b_ and sizes[a_] == sizes[b_] and b_ not in shared and a_ not in shared and a_ not in shared.values():
+                    sa, sb = slice(cum0[a_], cum0[a_ + 1]), slice(cum0[b_], cum0[b_ + 1])
+                    lo_, hi_ = np.maximum(lo[sa], lo[sb]), np.minimum(hi[sa], hi[sb])
+                    if np.all(lo_ <= hi_):
+                        x0[sa] = x0[sb] = np.clip(x0[sa], lo_, hi_)
+                        shared[b_] = a_
     feats = [f"nsig={len(sizes)}", f"kinds={'/'.join(s['kind'] for s in case['sigs'])}", f"min={case['min_mode']}",
              f"max={case['max_mode']}", f"move={case['move_mode']}", f"maxvol={case['maxvol']}", f"net={case['net']}"]
 
@@ -275,6 +291,19 @@ def run(case):
         else:
             st = x0[k:k + sz].copy()
             probe("vector_signal")
+            if i in shared:
+                st = sig[shared[i]].state                # the very same array object
+                probe("signals_share_initial_array")
+            elif case.get("slicevar") and sz >= 2:
+                # the variable is a SignalSlice with an index array (its state getter hands out a copy): scattered entries of a
+                # larger signal
+                idx_ = sub_rng(0x171, case["pseed"], i).permutation(sz + 3)[:sz]
+                base_ = np.full(sz + 3, -3.0)
+                base_[idx_] = st
+                sig.append(Signal(f"X{i}", state=base_)[idx_])
+                probe("variable_is_index_array_slice")
+                k += sz
+                continue
         sig.append(Signal(f"x{i}", state=st))
         k += sz
     if len(sig) > 1:
